@@ -4,6 +4,7 @@
 //   - real fractions (active, sealed, restarted) built by the real append path, queried through
 //     frac.DataProvider.Search with queries parsed by the real SeqQL parser (CSearch cases),
 //   - the real getLIDsBorders on the fraction's IDs index (CBorders cases),
+//
 // and writes the observations as Coq cases (props/C02/coq/CaseDefs.v).
 package main
 
@@ -40,12 +41,12 @@ import (
 // ================================================================ node trees
 
 type ntree struct {
-	Kind   string   `json:"kind"` // static and or nand not
-	Data   []uint32 `json:"data,omitempty"`
-	L      *ntree   `json:"l,omitempty"`
-	R      *ntree   `json:"r,omitempty"`
-	Lo     uint32   `json:"lo"`
-	Hi     uint32   `json:"hi"`
+	Kind string   `json:"kind"` // static and or nand not
+	Data []uint32 `json:"data,omitempty"`
+	L    *ntree   `json:"l,omitempty"`
+	R    *ntree   `json:"r,omitempty"`
+	Lo   uint32   `json:"lo"`
+	Hi   uint32   `json:"hi"`
 }
 
 func nlist(xs []uint32) string {
@@ -420,9 +421,9 @@ type corpusShape struct {
 	maxLen   int
 	maxToks  int
 	bulks    int
-	inter    int // search between bulks: 0 none, 1 all tokens, 2 tokens of the next bulk
-	repeat   bool // documents may carry the same token 2-3 times
-	rich     bool // longer values, numbers and number-like text among the values; the full leaf language in queries
+	inter    int      // search between bulks: 0 none, 1 all tokens, 2 tokens of the next bulk
+	repeat   bool     // documents may carry the same token 2-3 times
+	rich     bool     // longer values, numbers and number-like text among the values; the full leaf language in queries
 	pool     []string // values present in the corpus (filled after generation), so that patterns and ranges hit
 	numSpan  int      // numbers are drawn from [-20, numSpan-20)
 	richLen  int      // longest text value of a rich corpus
@@ -1497,6 +1498,10 @@ func main() {
 	for i := 0; i < nUnit/2; i++ {
 		inverserCase(w, r)
 	}
+	// (b3) GetLIDs is two steps: puts of other workers INSIDE the window between "queue taken" and "merged"
+	for i := 0; i < nUnit/4; i++ {
+		tokLIDsWinCase(w, r)
+	}
 
 	// (c) real fractions
 	tmp, err := os.MkdirTemp("", "verif-c02-")
@@ -1504,6 +1509,13 @@ func main() {
 		panic(err)
 	}
 	defer os.RemoveAll(tmp)
+	nWin := 40
+	if *tier == "thorough" {
+		nWin = 400
+	}
+	for i := 0; i < nWin; i++ {
+		execWinScenario(w, tmp, i, genWinScenario(r))
+	}
 	type job struct {
 		r      *rng.R
 		sh     corpusShape
@@ -1644,27 +1656,29 @@ func doReplay(w *casefile.Writer, path string) {
 		raw = rp.Replay.Input
 	}
 	var in struct {
-		Reverse  bool       `json:"reverse"`
-		Tree     *ntree     `json:"tree"`
-		Lists    [][]uint32 `json:"lists"`
-		Mids     []uint64   `json:"mids"`
-		Rids     []uint64   `json:"rids"`
-		Ops      [][]uint32 `json:"ops"`
-		Values   []uint32   `json:"values"`
-		Size     int        `json:"size"`
-		Unmapped []uint32   `json:"unmapped"`
-		Lo       uint32     `json:"lo"`
-		Hi       uint32     `json:"hi"`
-		Mode     string     `json:"mode"`
-		Cuts     []int      `json:"cuts"`
-		Inter    int        `json:"inter"`
-		Docs     []doc      `json:"docs"`
-		Requests []request  `json:"requests"`
-		Request  *request   `json:"request"`
-		From     *uint64    `json:"from"`
-		To       *uint64    `json:"to"`
-		LidCap   int        `json:"lid_cap"`
-		Ipb      int        `json:"ipb"`
+		Reverse  bool                 `json:"reverse"`
+		Tree     *ntree               `json:"tree"`
+		Lists    [][]uint32           `json:"lists"`
+		Mids     []uint64             `json:"mids"`
+		Rids     []uint64             `json:"rids"`
+		Ops      [][]uint32           `json:"ops"`
+		Values   []uint32             `json:"values"`
+		Size     int                  `json:"size"`
+		Unmapped []uint32             `json:"unmapped"`
+		Lo       uint32               `json:"lo"`
+		Hi       uint32               `json:"hi"`
+		Mode     string               `json:"mode"`
+		Cuts     []int                `json:"cuts"`
+		Inter    int                  `json:"inter"`
+		Docs     []doc                `json:"docs"`
+		Requests []request            `json:"requests"`
+		Request  *request             `json:"request"`
+		From     *uint64              `json:"from"`
+		To       *uint64              `json:"to"`
+		LidCap   int                  `json:"lid_cap"`
+		Ipb      int                  `json:"ipb"`
+		WinOps   []frac.VerifC02WinOp `json:"win_ops"`
+		Window   *winScenario         `json:"window"`
 	}
 	if err := json.Unmarshal(raw, &in); err != nil {
 		panic(err)
@@ -1674,6 +1688,15 @@ func doReplay(w *casefile.Writer, path string) {
 		nodeCase(w, in.Tree, in.Reverse, "nodes")
 	case in.Lists != nil:
 		execFold(w, in.Reverse, in.Lists)
+	case in.Window != nil:
+		tmp, err := os.MkdirTemp("", "verif-c02-")
+		if err != nil {
+			panic(err)
+		}
+		defer os.RemoveAll(tmp)
+		execWinScenario(w, tmp, 0, *in.Window)
+	case in.Mids != nil && in.WinOps != nil:
+		execTokLIDsWin(w, in.Mids, in.Rids, in.WinOps)
 	case in.Mids != nil:
 		coq := make([]string, len(in.Ops))
 		for i, o := range in.Ops {
